@@ -8,6 +8,7 @@ import (
 	"sync"
 
 	"gonum.org/v1/gonum/floats"
+	"gonum.org/v1/gonum/internal/verifhook"
 	"gonum.org/v1/gonum/mat"
 )
 
@@ -135,6 +136,7 @@ func jacobianConcurrent(dst *mat.Dense, f func([]float64, []float64), x, origin 
 		mu = make([]sync.Mutex, n) // Guard access to individual columns.
 	)
 	worker := func(jobs <-chan jacJob) {
+		jid := verifhook.Actor("J")
 		defer wg.Done()
 		xcopy := make([]float64, n)
 		y := make([]float64, m)
@@ -144,9 +146,12 @@ func jacobianConcurrent(dst *mat.Dense, f func([]float64, []float64), x, origin 
 			copy(xcopy, x)
 			xcopy[job.j] += job.pt.Loc * step
 			f(y, xcopy)
+			verifhook.Emit(jid, "JEval", int64(job.j), int64(job.pt.Loc), 0)
 			col.ColViewOf(dst, job.j)
 			mu[job.j].Lock()
+			verifhook.Emit(jid, "JEnter", int64(job.j), 0, 0)
 			col.AddScaledVec(&col, job.pt.Coeff, yVec)
+			verifhook.Emit(jid, "JLeave", int64(job.j), 0, 0)
 			mu[job.j].Unlock()
 		}
 	}
@@ -177,6 +182,7 @@ func jacobianConcurrent(dst *mat.Dense, f func([]float64, []float64), x, origin 
 		}()
 	}
 	wg.Wait()
+	verifhook.Emit("J", "JJoined", int64(n), int64(len(formula.Stencil)), 0)
 
 	if hasOrigin {
 		// The formula evaluated at x, we need to add scaled origin to
